@@ -426,13 +426,8 @@ where
             Entry::Vacant(e) => {
                 e.insert((primitive, r.gen));
             }
-            Entry::Occupied(mut e) => match (e.get_mut(), primitive) {
-                ((Primitive::Dictionary(ref mut dict), _), Primitive::Dictionary(new)) => {
-                    dict.append(new);
-                }
-                (old, new) => {
-                    *old = (new, r.gen);
-                }
+            Entry::Occupied(mut e) => {
+                *e.get_mut() = (primitive, r.gen);
             }
         }
         let rc = Shared::new(obj);
